@@ -222,6 +222,36 @@ theorem run_writes_queue (ws : List Write) : ∀ (r : Remote), r.autocommit = fa
     rw [hY, hX]
     simp [List.append_assoc]
 
+/-- the request strings one write call appends to `_edits` (nothing when `node_to_sparql` raised) -/
+def queuedBy (hook : Bool) (w : Write) : List (List UOp) :=
+  match compileWrite hook w with
+  | some es => es
+  | none => []
+
+theorem step_write_queue (r : Remote) (w : Write) (hac : r.autocommit = false) (hro : r.readOnly = false) :
+    (r.step (.write w)).1 = { r with edits := r.edits ++ queuedBy r.hook w } := by
+  cases hc : compileWrite r.hook w with
+  | none =>
+    cases r
+    simp_all [Remote.step, queuedBy]
+  | some es =>
+    rw [step_write_ok hro hc]
+    simp [Remote.enqueue, hac, queuedBy, hc]
+
+/-- autocommit off: after any writes the queue is the old queue followed by the requests of every
+    write, in call order, each as often as it was issued -/
+theorem run_writes_edits (ws : List Write) : ∀ (r : Remote), r.autocommit = false → r.readOnly = false →
+    r.run (ws.map Op.write) = { r with edits := r.edits ++ ws.flatMap (queuedBy r.hook) } := by
+  induction ws with
+  | nil => intro r _ _; simp [Remote.run]
+  | cons w ws ih =>
+    intro r hac hro
+    have h1 := step_write_queue r w hac hro
+    have := ih { r with edits := r.edits ++ queuedBy r.hook w } hac hro
+    simp only [List.map_cons, Remote.run, List.foldl_cons] at this ⊢
+    rw [h1, this]
+    simp [List.append_assoc]
+
 theorem run_cons (r : Remote) (op : Op) (ops : List Op) : r.run (op :: ops) = (r.step op).1.run ops := rfl
 
 theorem run_append (r : Remote) (a b : List Op) : r.run (a ++ b) = (r.run a).run b := by
